@@ -116,6 +116,9 @@ def install(cfg):
 
     @cfg.stub(api.note)
     def note(interp, *a):
+        import os
+        if os.environ.get("PYVC_TRACE"):
+            print("NOTE:", [str(getattr(x, "t", x))[:300] for x in a], flush=True)
         return None
 
     @cfg.stub(api.call)
@@ -165,7 +168,11 @@ def install(cfg):
         def thunk():
             interp.ctx.add(g.member)
             return interp.call(f, [g.value], {})
-        site = (id(getattr(f, 'node', f)), 'specq', is_all)
+        from .summarize import ident as _ident
+        envk = ()
+        if isinstance(f, Closure) and f.env is not None:
+            envk = tuple((k_, _ident(v_)) for k_, v_ in f.env.vars.items())
+        site = (id(getattr(f, 'node', f)), 'specq', is_all, _ident(g.value), _ident(coll), envk)
         outs = summarize(interp, thunk, bound=[g.bv], site=site)
         parts = []
         for o in outs:
@@ -242,7 +249,14 @@ def install(cfg):
     def in_b64u_alphabet(interp, b):
         if is_plain(b):
             return api.in_b64u_alphabet(b)
-        return boolval(interp, z3.InRe(interp.bytes_term(b), S.B64U_RE))
+        from .strings import flatten_concat
+        bt = simp(interp.bytes_term(b))
+        parts = flatten_concat(bt)
+        if all(S.is_b64u_app(p_) for p_ in parts):
+            for p_ in parts:
+                S.B64U_app(interp.ctx, p_.arg(0))      # (re-)instantiate the alphabet axiom at this term
+            return True
+        return boolval(interp, z3.InRe(bt, S.B64U_RE))
 
     @cfg.stub(api.only_b64_input_chars)
     def only_b64_input_chars(interp, b):
@@ -569,3 +583,13 @@ def install(cfg):
         t = S.utf8_encode(interp.ctx, A["s"](s_.t))
         padded = z3.Concat(t, S.rep(interp.ctx, z3.StringVal("="), (-z3.Length(t)) % 4))
         return boolval(interp, z3.And(is_tag(s_.t, "vstr"), z3.Not(z3.Contains(t, z3.StringVal("+"))), z3.Not(z3.Contains(t, z3.StringVal("/"))), S.PyB64Ok(padded)))
+
+    @cfg.stub(api.spec_b64u_decode)
+    def spec_b64u_decode(interp, text):
+        if is_plain(text):
+            return api.spec_b64u_decode(text)
+        t = simp(interp.text_term(text))
+        if S.is_b64u_app(t):
+            return interp.mk("vbytes", t.arg(0))
+        padded = z3.Concat(t, S.rep(interp.ctx, z3.StringVal("="), (-z3.Length(t)) % 4))
+        return interp.mk("vbytes", S.PyB64Dec(padded))
